@@ -134,29 +134,121 @@ Proof.
   destruct (py_range_idx size i); simpl; split; congruence.
 Qed.
 
-Local Opaque lib_getitem_int_check.
+(* ---- tensor indices: the range check at the top of the tensor branch *)
 
-(* an index tuple has an out-of-range python int at some position *)
+Lemma fold_max_spec : forall r v, In (fold_right Z.max v r) (v :: r) /\ forall x, In x (v :: r) -> (x <= fold_right Z.max v r)%Z.
+Proof.
+  induction r as [|w r IH]; intro v; simpl.
+  - split; [auto|]. intros x [E|[]]. lia.
+  - destruct (IH v) as [M U]. simpl in M. split.
+    + destruct (Z.max_spec w (fold_right Z.max v r)) as [[_ E]|[_ E]]; rewrite E; [destruct M; auto | auto].
+    + intros x [E|[E|I]].
+      * assert (x <= fold_right Z.max v r)%Z by (apply U; left; exact E). lia.
+      * lia.
+      * assert (x <= fold_right Z.max v r)%Z by (apply U; right; exact I). lia.
+Qed.
+Lemma fold_min_spec : forall r v, In (fold_right Z.min v r) (v :: r) /\ forall x, In x (v :: r) -> (fold_right Z.min v r <= x)%Z.
+Proof.
+  induction r as [|w r IH]; intro v; simpl.
+  - split; [auto|]. intros x [E|[]]. lia.
+  - destruct (IH v) as [M U]. simpl in M. split.
+    + destruct (Z.min_spec w (fold_right Z.min v r)) as [[_ E]|[_ E]]; rewrite E; [auto | destruct M; auto].
+    + intros x [E|[E|I]].
+      * assert (fold_right Z.min v r <= x)%Z by (apply U; left; exact E). lia.
+      * lia.
+      * assert (fold_right Z.min v r <= x)%Z by (apply U; right; exact I). lia.
+Qed.
+
+Lemma zmax_ge : forall l n, l <> [] -> ((n <=? zmax l) = true <-> exists v, In v l /\ n <= v)%Z.
+Proof.
+  intros [|v r] n H; [congruence|]. clear H. unfold zmax. destruct (fold_max_spec r v) as [M U].
+  rewrite Z.leb_le. split.
+  - intro L. exists (fold_right Z.max v r). split; [exact M | exact L].
+  - intros (x & I & L). specialize (U x I). lia.
+Qed.
+
+Lemma zmin_lt : forall l n, l <> [] -> ((zmin l <? n) = true <-> exists v, In v l /\ v < n)%Z.
+Proof.
+  intros [|v r] n H; [congruence|]. clear H. unfold zmin. destruct (fold_min_spec r v) as [M U].
+  rewrite Z.ltb_lt. split.
+  - intro L. exists (fold_right Z.min v r). split; [exact M | exact L].
+  - intros (x & I & L). specialize (U x I). lia.
+Qed.
+
+(* some value of the index tensor is out of range (torch's rule: -size <= v < size) *)
+Definition vals_oob (size : nat) (vals : list Z) : bool := existsb (fun v => negb (torch_index_ok size v)) vals.
+
+(* under settings.debug, for every dtype that carries values (everything but torch.bool) and every non-empty index tensor:
+   the check raises exactly when some value is >= size or < -size *)
+Theorem tensor_check_exact : forall dt size vals, dt <> DBool ->
+  (lib_getitem_tensor_check true dt size vals = Raise <-> vals_oob size vals = true).
+Proof.
+  intros dt size vals ND. unfold lib_getitem_tensor_check, vals_oob.
+  destruct vals as [|v0 r].
+  - simpl. split; discriminate.
+  - set (l := v0 :: r). assert (NE : l <> []) by discriminate.
+    replace (length l =? 0) with false by reflexivity. simpl negb.
+    assert (B : idtype_eqb dt DBool = false) by (destruct dt; try reflexivity; congruence). rewrite B. simpl negb.
+    rewrite existsb_exists.
+    destruct (Z.of_nat size <=? zmax l)%Z eqn:E1.
+    + split; [|reflexivity]. intros _. apply (zmax_ge l _ NE) in E1. destruct E1 as (x & I & L).
+      exists x. split; [exact I|]. unfold torch_index_ok. apply negb_true_iff, andb_false_iff. right. apply Z.ltb_ge. lia.
+    + destruct (zmin l <? - Z.of_nat size)%Z eqn:E2.
+      * split; [|reflexivity]. intros _. apply (zmin_lt l _ NE) in E2. destruct E2 as (x & I & L).
+        exists x. split; [exact I|]. unfold torch_index_ok. apply negb_true_iff, andb_false_iff. left. apply Z.leb_gt. lia.
+      * split; [discriminate|]. intros (x & I & O). exfalso.
+        unfold torch_index_ok in O. apply negb_true_iff, andb_false_iff in O. destruct O as [O|O].
+        -- apply Z.leb_gt in O. assert (K : (zmin l <? - Z.of_nat size)%Z = true) by (apply (zmin_lt l _ NE); exists x; split; [exact I|lia]).
+           congruence.
+        -- apply Z.ltb_ge in O. assert (K : (Z.of_nat size <=? zmax l)%Z = true) by (apply (zmax_ge l _ NE); exists x; split; [exact I|lia]).
+           congruence.
+Qed.
+
+Lemma vals_oob_spec : forall size vals,
+  vals_oob size vals = true <-> exists v, In v vals /\ (v >= Z.of_nat size \/ v < - Z.of_nat size)%Z.
+Proof.
+  intros size vals. unfold vals_oob. rewrite existsb_exists. split; intros (v & I & H); exists v; split; try exact I.
+  - unfold torch_index_ok in H. apply negb_true_iff, andb_false_iff in H. destruct H as [H|H];
+      [apply Z.leb_gt in H; lia | apply Z.ltb_ge in H; lia].
+  - unfold torch_index_ok. apply negb_true_iff, andb_false_iff. destruct H; [right; apply Z.ltb_ge; lia | left; apply Z.leb_gt; lia].
+Qed.
+
+(* bool masks have no value range: nothing is checked; with settings.debug off nothing is checked for any dtype *)
+Lemma tensor_check_bool : forall size vals, lib_getitem_tensor_check true DBool size vals = Ok tt.
+Proof. intros. unfold lib_getitem_tensor_check. destruct (negb (length vals =? 0)); reflexivity. Qed.
+Lemma tensor_check_nodebug : forall dt size vals, lib_getitem_tensor_check false dt size vals = Ok tt.
+Proof. reflexivity. Qed.
+
+Local Opaque lib_getitem_int_check lib_getitem_tensor_check.
+
+(* an index tuple has an out-of-range python int, or a value-carrying tensor index with an out-of-range value, at some position *)
 Fixpoint int_oob (sizes : shape) (idx : list item) : bool :=
   match sizes, idx with
   | n :: sizes', IInt i :: idx' => negb (torch_index_ok n i) || int_oob sizes' idx'
+  | n :: sizes', ITensor dt _ vals :: idx' => (negb (idtype_eqb dt DBool) && vals_oob n vals) || int_oob sizes' idx'
   | _ :: sizes', _ :: idx' => int_oob sizes' idx'
   | _, _ => false
   end.
 Definition no_tensor (idx : list item) : bool :=
-  forallb (fun it => match it with ITensor _ => false | _ => true end) idx.
+  forallb (fun it => match it with ITensor _ _ _ => false | _ => true end) idx.
 
 Lemma getitem_loop_oob : forall sizes idx st, int_oob sizes idx = true -> getitem_loop true st sizes idx = Raise.
 Proof.
   induction sizes as [|n sizes IH]; intros [|it idx] st H; simpl in H; try discriminate.
-  simpl. destruct it as [i|len|sh].
+  simpl. destruct it as [i|len|dt sh vals].
   - simpl. destruct (torch_index_ok n i) eqn:T; simpl in H.
     + destruct (lib_getitem_int_check true n i) eqn:C; simpl; [apply IH; exact H | reflexivity].
     + apply int_check_debug in T. rewrite T. reflexivity.
   - simpl. apply IH. exact H.
-  - simpl. destruct (g_tshape st); simpl.
-    + destruct (torch_broadcast s sh); simpl; [apply IH; exact H | reflexivity].
-    + apply IH. exact H.
+  - simpl. destruct (lib_getitem_tensor_check true dt n vals) eqn:C; [|reflexivity]. simpl.
+    assert (H' : int_oob sizes idx = true).
+    { apply orb_true_iff in H. destruct H as [H|H]; [|exact H]. exfalso.
+      apply andb_true_iff in H. destruct H as [ND O].
+      assert (dt <> DBool) by (intro; subst; discriminate).
+      apply (tensor_check_exact dt n vals) in O; [congruence | assumption]. }
+    destruct (g_tshape st); simpl.
+    + destruct (torch_broadcast s sh); simpl; [apply IH; exact H' | reflexivity].
+    + apply IH. exact H'.
 Qed.
 
 (* For operators of ANY rank and index tuples of that length: with settings.debug on, an out-of-range python int
@@ -174,7 +266,7 @@ Lemma getitem_loop_ok : forall sizes idx st, no_tensor idx = true -> int_oob siz
 Proof.
   induction sizes as [|n sizes IH]; intros [|it idx] st NT H; simpl; eauto.
   simpl in NT. apply andb_true_iff in NT. destruct NT as [N1 NT]. simpl in H.
-  destruct it as [i|len|sh]; [| |discriminate].
+  destruct it as [i|len|dt sh vals]; [| |discriminate].
   - apply orb_false_iff in H. destruct H as [H1 H]. apply negb_false_iff in H1.
     simpl. destruct (lib_getitem_int_check true n i) eqn:C.
     + simpl. apply IH; auto.
@@ -197,7 +289,7 @@ Proof.
   rewrite E in H. simpl in H. simpl in A. rewrite A in H. discriminate.
 Qed.
 
-Local Transparent lib_getitem_int_check.
+Local Transparent lib_getitem_int_check lib_getitem_tensor_check.
 
 (* with settings.debug off the int branch checks nothing: stated so that the assumption is visible *)
 Lemma int_check_nodebug : forall size i, lib_getitem_int_check false size i = Ok tt.
